@@ -18,6 +18,25 @@ def hash_variants(rng, doc, exhaustive):
         d = bytearray(doc)
         d[1 + b // 8] ^= 0x80 >> (b % 8)
         out.append(('bitflip', bytes(d)))
+    # several bytes changed at once, chosen so that simple aggregates of the differences cancel (xor of all differences 0, sum 0,
+    # every byte inverted, two bytes swapped, rotated digest): a comparison has to look at every byte on its own
+    n = len(doc) - 1
+    i, j, k = rng.sample(range(n), 3)
+    m = rng.randrange(1, 256)
+    d = bytearray(doc); d[1 + i] ^= m; d[1 + j] ^= m
+    out.append(('multibyte', bytes(d)))
+    m2 = rng.randrange(1, 256)
+    d = bytearray(doc); d[1 + i] ^= m; d[1 + j] ^= m2; d[1 + k] ^= m ^ m2
+    if m != m2:
+        out.append(('multibyte', bytes(d)))
+    d = bytearray(doc); d[1 + i] = (d[1 + i] + 1) & 0xff; d[1 + j] = (d[1 + j] - 1) & 0xff
+    out.append(('multibyte', bytes(d)))
+    out.append(('multibyte', doc[:1] + bytes(b ^ 0xff for b in doc[1:])))
+    if doc[1 + i] != doc[1 + j]:
+        d = bytearray(doc); d[1 + i], d[1 + j] = d[1 + j], d[1 + i]
+        out.append(('multibyte', bytes(d)))
+    if doc[1:] != doc[2:] + doc[1:2]:
+        out.append(('multibyte', doc[:1] + doc[2:] + doc[1:2]))
     for a in SAME_LEN.get(doc[0], []):
         out.append(('same-digest-other-alg', bytes([a]) + doc[1:]))
     for a in (0, 1, 4, 5):
